@@ -28,7 +28,8 @@ def main():
     names = sys.argv[1:] or sorted(d for d in os.listdir(os.path.join(ROOT, "harmless")) if d.startswith("H"))
     subprocess.run("git -C /repo worktree remove --force %s; rm -rf %s; git -C /repo worktree add --detach %s HEAD" % (WT, WT, WT),
                    shell=True, stdout=subprocess.DEVNULL, stderr=subprocess.DEVNULL)
-    results = {}
+    res_path = os.path.join(ROOT, "harmless", "RESULTS.json")
+    results = json.load(open(res_path)) if os.path.exists(res_path) else {}
     try:
         base = failing(WT)
         for n in names:
@@ -47,7 +48,7 @@ def main():
     finally:
         subprocess.run("git -C /repo worktree remove --force %s; rm -rf %s %s" % (WT, WT, OUT), shell=True,
                        stdout=subprocess.DEVNULL, stderr=subprocess.DEVNULL)
-    json.dump(results, open(os.path.join(ROOT, "harmless", "RESULTS.json"), "w"), indent=1)
+    json.dump(results, open(res_path, "w"), indent=1)
     return 0
 
 
